@@ -215,9 +215,11 @@ const (
 	modBext   key.Modifier = "verif-bext"
 	modDis    key.Modifier = "verif-disable"
 	modCtr    key.Modifier = "verif-counter"
+	// a revive whose insert comes late (priority 600: after inserted actions and ultimates)
+	modReviveLate key.Modifier = "verif-revive-late"
 )
 
-var simMods = []key.Modifier{modRevive, modDot, modFreeze, modP2, modBext, modDis, modCtr}
+var simMods = []key.Modifier{modRevive, modDot, modFreeze, modP2, modBext, modDis, modCtr, modReviveLate}
 
 type scriptedChar struct {
 	eng engine.Engine
@@ -330,24 +332,30 @@ func registerScripted() {
 		Rank:  model.EnemyRank_ELITE,
 		Base:  enemy.BaseStats{ATK: 100, DEF: 100, HP: 100, SPD: 100, Stance: 30, CritChance: 0, CritDMG: 0, MinFatigue: 0},
 	})
-	modifier.Register(modRevive, modifier.Config{
-		Listeners: modifier.Listeners{
-			OnLimboWaitHeal: func(mod *modifier.Instance) bool {
-				owner := mod.Owner()
-				mod.Engine().InsertAbility(info.Insert{
-					Key:      "verif-revive",
-					Source:   owner,
-					Priority: info.CharReviveSelf,
-					Execute: func() {
-						mod.Engine().SetHP(info.ModifyAttribute{Key: "verif-revive", Target: owner, Source: owner, Amount: mod.OwnerStats().MaxHP() * 0.5})
-						curSim.mark(owner)
-						mod.RemoveSelf()
-					},
-				})
-				return true
+	for _, rv := range []struct {
+		name key.Modifier
+		prio info.InsertPriority
+	}{{modRevive, info.CharReviveSelf}, {modReviveLate, 600}} {
+		rv := rv
+		modifier.Register(rv.name, modifier.Config{
+			Listeners: modifier.Listeners{
+				OnLimboWaitHeal: func(mod *modifier.Instance) bool {
+					owner := mod.Owner()
+					mod.Engine().InsertAbility(info.Insert{
+						Key:      "verif-revive",
+						Source:   owner,
+						Priority: rv.prio,
+						Execute: func() {
+							mod.Engine().SetHP(info.ModifyAttribute{Key: "verif-revive", Target: owner, Source: owner, Amount: mod.OwnerStats().MaxHP() * 0.5})
+							curSim.mark(owner)
+							mod.RemoveSelf()
+						},
+					})
+					return true
+				},
 			},
-		},
-	})
+		})
+	}
 	modifier.Register(modDot, modifier.Config{
 		Listeners: modifier.Listeners{
 			OnPhase1: func(mod *modifier.Instance) {
@@ -480,6 +488,9 @@ func (s *simRun) runProg(p int, src, pt key.TargetID) {
 			}
 		case 'M': // add modifier kind a (once)
 			for _, t := range s.resolve(c.sel, src, pt) {
+				if (c.a == 0 || c.a == 7) && (e.HasModifier(t, modRevive) || e.HasModifier(t, modReviveLate)) {
+					continue // one revive effect per unit
+				}
 				if !e.HasModifier(t, simMods[c.a]) {
 					e.AddModifier(t, info.Modifier{Name: simMods[c.a], Source: src})
 				}
